@@ -163,7 +163,11 @@ pub fn scalar_to_value(v: &BorrowedScalarValue<'_>) -> Value {
     use BorrowedScalarValue as S;
     match v {
         S::Null => Value::Null,
-        S::Boolean(b) => Value::Bool(*b),
+        // a defective reader can hand out uninitialised bytes as a `bool`
+        S::Boolean(b) => {
+            let raw: u8 = unsafe { std::ptr::read_volatile(b as *const bool as *const u8) };
+            if raw > 1 { Value::Other(format!("invalid-bool:{raw}")) } else { Value::Bool(raw == 1) }
+        }
         S::Int8(x) => Value::Int(*x as i128),
         S::Int16(x) => Value::Int(*x as i128),
         S::Int32(x) => Value::Int(*x as i128),
@@ -177,7 +181,18 @@ pub fn scalar_to_value(v: &BorrowedScalarValue<'_>) -> Value {
         S::Float16(x) => Value::Float(x.to_f64()),
         S::Float32(x) => Value::Float(*x as f64),
         S::Float64(x) => Value::Float(*x),
-        S::Utf8(s) => Value::Str(s.to_string()),
+        // a defective reader can hand out a `str` that is not UTF-8; never trust it
+        S::Utf8(s) => match std::str::from_utf8(s.as_bytes()) {
+            Ok(ok) => Value::Str(ok.to_string()),
+            Err(_) => Value::Other(format!("invalid-utf8:{}", s.as_bytes().iter().map(|x| format!("{x:02x}")).collect::<String>())),
+        },
+        // raw renderings, independent of the engine's text formatting
+        S::Date32(d) => Value::Other(format!("date32:{d}")),
+        S::Date64(d) => Value::Other(format!("date64:{d}")),
+        S::Timestamp(t) => Value::Other(format!("ts:{:?}:{}", t.unit, t.value)),
+        S::Decimal64(d) => Value::Other(format!("dec64:{}:{}:{}", d.value, d.precision, d.scale)),
+        S::Decimal128(d) => Value::Other(format!("dec128:{}:{}:{}", d.value, d.precision, d.scale)),
+        S::Binary(b) => Value::Other(format!("bin:{}", b.iter().map(|x| format!("{x:02x}")).collect::<String>())),
         other => Value::Other(format!("{other}")),
     }
 }
